@@ -9,6 +9,7 @@
 #include <cmath>
 #include <memory>
 #ifdef VERIF_C17
+#include <deque>
 #include <thread>
 #endif
 
@@ -235,6 +236,39 @@ void to_value(const VNode &n, Value<Char_T> &v) {
         }
     }
 }
+
+#ifdef VERIF_C17
+// The same tree with every second container below the root held through a pointer value (SetPointerToValue): what a caller
+// who assembles a document from parts he owns hands to the renderer. The targets live in `pool` and outlive every render.
+template <typename Char_T>
+void to_value_ptr(const VNode &n, Value<Char_T> &v, std::deque<Value<Char_T>> &pool, unsigned &counter, int depth) {
+    if (n.k != VK::Arr && n.k != VK::Obj) {
+        to_value(n, v);
+        return;
+    }
+    Value<Char_T> *dst = &v;
+    if (depth > 0 && (counter++ % 2) == 0) {
+        pool.emplace_back();
+        dst = &pool.back();
+        v.SetPointerToValue(dst);
+    }
+    if (n.k == VK::Arr) {
+        *dst = Value<Char_T>{ValueType::Array};
+        for (auto &c : n.arr) {
+            Value<Char_T> x;
+            to_value_ptr(c, x, pool, counter, depth + 1);
+            *dst += Memory::Move(x);
+        }
+    } else {
+        *dst = Value<Char_T>{ValueType::Object};
+        for (auto &kv : n.obj) {
+            Value<Char_T> x;
+            to_value_ptr(kv.second, x, pool, counter, depth + 1);
+            (*dst)[mkstr<Char_T>(kv.first)] = Memory::Move(x);
+        }
+    }
+}
+#endif
 
 // ------------------------------------------------------------------------------------------------ reference helpers
 std::string escape_html(const std::string &s) { // reference escaper (C03's specification)
@@ -1339,6 +1373,7 @@ struct Scenario {
     int  tags{0}, resolved{0}, depth{0};
     unsigned kinds{0};
     bool loop_in_if{false}, sort{false}, group{false}, unresolved{false}, deep{false};
+    bool pointers{false}; // C17 only: containers reached through pointer values (a function of the case bytes, no entropy is spent)
 };
 
 void make_scenario(const Case &c, Scenario &s) {
@@ -1361,13 +1396,31 @@ void make_scenario(const Case &c, Scenario &s) {
     s.group      = g.uses_group;
     s.unresolved = g.has_unresolved;
     s.deep       = g.deep;
+#ifdef VERIF_C17
+    {
+        std::string key(c.bytes.begin(), c.bytes.end());
+        s.pointers = (pbt::fnv1a(key) % 3) == 0;
+    }
+#endif
 }
 
 template <typename Char_T>
 std::string render_with_library(const Scenario &s, pbt::Ctx &ctx) {
     (void)ctx;
     Value<Char_T> v;
+#ifdef VERIF_C17
+    std::deque<Value<Char_T>> pool;
+    if (s.pointers) {
+        unsigned counter = 0;
+        to_value_ptr(s.root, v, pool, counter, 0);
+    } else {
+        to_value(s.root, v);
+    }
+    StringStream<Char_T> value_before;
+    v.Stringify(value_before, 17U);
+#else
     to_value(s.root, v);
+#endif
     Units               tu(s.text.begin(), s.text.end());
     for (auto &x : tu) {
         x &= 0xFF;
@@ -1380,8 +1433,6 @@ std::string render_with_library(const Scenario &s, pbt::Ctx &ctx) {
     using TC = TemplateCore<Char_T, Value<Char_T>, StringStream<Char_T>>;
     // fresh single render: the reference for every other way of rendering
     Template::Render(tb.cp(), SizeT(tb.n), v, out);
-    StringStream<Char_T> value_before;
-    v.Stringify(value_before, 17U);
     Units tpl_before = jm::units_of(tb.cp(), tb.n);
     // one parsed cache, reused: repeated renders, streams that already hold content, a copy of the cache
     Array<Tags::TagBit> cache;
@@ -1474,6 +1525,14 @@ struct H {
                             return c;
                         });
     }
+    // coverage-guided mode: selector byte, then entropy
+    static bool from_fuzz(const uint8_t *d, size_t n, Case &c) {
+        pbt::FuzzBytes f(d, n);
+        static const int w[] = {1, 2, 4, 3};
+        c.width = w[f.sel() & 3];
+        c.bytes = f.rest();
+        return true;
+    }
     static std::string to_text(const Case &c) {
         pbt::KV     kv;
         std::string hex;
@@ -1536,7 +1595,9 @@ struct H {
             case 3: got = render_with_library<wchar_t>(s, ctx); break;
             default: got = render_with_library<char32_t>(s, ctx); break;
         }
-        if (got != s.expect) {
+        ctx.label("pointer-values", s.pointers);
+        // (with pointer values only purity is decided: how sort= and group= treat a set held through a pointer is not documented)
+        if (got != s.expect && !s.pointers) {
             // first difference, for the reader
             size_t k = 0;
             while (k < got.size() && k < s.expect.size() && got[k] == s.expect[k]) {
@@ -1551,4 +1612,4 @@ struct H {
 
 } // namespace
 
-int main(int argc, char **argv) { return pbt::run_main<H>(argc, argv); }
+PBT_MAIN(H)
